@@ -58,6 +58,16 @@ REMOVE_EXEMPT = {('Element::remove_character_data', 'clear'), ('Element::remove_
                  ('ElementRaw::set_character_data_internal', 'index-assign'), ('ElementRaw::set_item_name', 'index-assign'), ('ElementRaw::sort', 'clear')}
 
 
+def rekey_scan_rule(C, P, RULE):
+    """re-keying walks over EVERY key of the index: no range / skip / take restriction (the map order is not the tree order: swap_remove
+    moves the last entry into the hole).  Shared: C04 (index = tree) and C06 (a rewritten reference must still resolve)."""
+    fi = P.get('AutosarModel::fix_identifiables')
+    ks = calls(fi, r'IndexMap::<K, V, S>::(keys|iter|iter_mut)$')
+    lim = calls(fi, r'Iterator>?::(skip|take|skip_while|take_while|step_by|rev)$|IndexMap::<K, V, S>::(get_index_of|get_range|get_index|split_off|first|last)$')
+    C.check(len(ks) >= 1 and not lim, RULE, 'fix_identifiables|scans-every-key', 'fix_identifiables does not examine every key of the path index (skip/take/index range): nested entries that are stored before their container in the map keep their old path after a rename or move',
+            fi.where(lim[0]) if lim else '%s:%d' % (fi.file, fi.line), sample={'fn': 'fix_identifiables', 'scan': 'identifiables.keys() (all)'})
+
+
 def run(ctx):
     C = Check('C04', ctx['tier'], 'other', ctx['seed'])
     P = Program(ctx['facts'])
@@ -171,13 +181,7 @@ def run(ctx):
                     seen_set = True
     C.check(seen_set, 'C04-MUST-unique', 'load|duplicate-path-within-one-file', 'the loader does not detect a path that occurs twice within one file: both elements stay in the model with the same AUTOSAR path and one index entry',
             '%s:%d' % (pe_.file, pe_.line))
-    # re-keying walks over EVERY key of the index: no range / skip / take restriction (the map order is not the tree order:
-    # swap_remove moves the last entry into the hole)
-    fi = P.get('AutosarModel::fix_identifiables')
-    ks = calls(fi, r'IndexMap::<K, V, S>::(keys|iter|iter_mut)$')
-    lim = calls(fi, r'Iterator>?::(skip|take|skip_while|take_while|step_by|rev)$|IndexMap::<K, V, S>::(get_index_of|get_range|get_index|split_off|first|last)$')
-    C.check(len(ks) >= 1 and not lim, 'C04-PAIR-index', 'fix_identifiables|scans-every-key', 'fix_identifiables does not examine every key of the path index (skip/take/index range): nested entries that are stored before their container in the map keep their old path after a rename or move',
-            fi.where(lim[0]) if lim else '%s:%d' % (fi.file, fi.line), sample={'fn': 'fix_identifiables', 'scan': 'identifiables.keys() (all)'})
+    rekey_scan_rule(C, P, 'C04-PAIR-index')
     C.rule('C04-DEV-merge-disjoint', 'a file merge never inserts an element that was already merged into its counterpart (two elements with one path): shared with C09-DEV-bonly')
     from c09 import dev_bonly
     dev_bonly(C, P, 'C04-DEV-merge-disjoint')
